@@ -996,12 +996,20 @@ def group_N(chk: Check) -> None:
                         return {"reproduced": True, "input": f"{kind}{tuple(idx)} with m_{k} = 0 substituted before doit()", "observed": f"{type(e).__name__}: {e}"[:200]}
                     fn = sp.lambdify([sp.Symbol(nm, nonnegative=True) for nm in NAMES], first, "numpy")
                     for ev in evs[k]:
+                        try:
+                            b = real_value(kind, idx, ev["pt"])
+                        except Exception:  # noqa: BLE001  (the symbols-first form does not evaluate either: other groups' subject)
+                            continue
                         with np.errstate(all="ignore"):
                             try:
                                 a = complex(fn(*[np.float64(ev["pt"][nm]) for nm in NAMES]))
                             except ZeroDivisionError:
                                 continue
-                        b = real_value(kind, idx, ev["pt"])
+                            except Exception as e:  # noqa: BLE001
+                                if np.isfinite(b):  # symbols first evaluates at this event, numbers first does not
+                                    return {"reproduced": True, "input": {"function": kind, "indices": list(idx), "massless": f"m_{k} = 0 (exact, before doit)", "point": ev["pt"]},
+                                            "observed": f"{type(e).__name__}: {e}"[:200], "expected": b, "what": "numbers first == symbols first"}
+                                continue
                         if not (np.isfinite(a.real) and np.isfinite(b)):
                             continue
                         n += 1
